@@ -17,14 +17,17 @@ pub struct LayoutOpts {
     pub tabs: bool,
     /// one statement per line as the baseline (uses PTok::stmt_start)
     pub statement_lines: bool,
+    /// probability (percent) that a statement starting a line is preceded by a block of 3-5 line comments on their own
+    /// lines (a documentation block), some separated by a blank line
+    pub doc_block_pct: u32,
 }
 
 impl LayoutOpts {
     pub fn random(r: &mut Rng) -> LayoutOpts {
-        LayoutOpts { newline: r.below(3) as u8, comment_pct: *r.pick(&[0, 5, 15, 40]), newline_pct: *r.pick(&[0, 5, 20]), trailing_newline: r.bool(), tabs: r.bool(), statement_lines: r.chance(3, 4) }
+        LayoutOpts { newline: r.below(3) as u8, comment_pct: *r.pick(&[0, 5, 15, 40]), newline_pct: *r.pick(&[0, 5, 20]), trailing_newline: r.bool(), tabs: r.bool(), statement_lines: r.chance(3, 4), doc_block_pct: 0 }
     }
     pub fn plain() -> LayoutOpts {
-        LayoutOpts { newline: 0, comment_pct: 0, newline_pct: 0, trailing_newline: true, tabs: false, statement_lines: true }
+        LayoutOpts { newline: 0, comment_pct: 0, newline_pct: 0, trailing_newline: true, tabs: false, statement_lines: true, doc_block_pct: 0 }
     }
 }
 
@@ -138,6 +141,20 @@ pub fn layout_tokens(toks: &[PTok], r: &mut Rng, o: &LayoutOpts) -> (String, Vec
                 g
             } else if prev.text == "-" { let o2 = LayoutOpts { comment_pct: 0, ..o.clone() }; gap(r, &o2, must, want_nl, &mut hc) } else { gap(r, o, must, want_nl, &mut hc) };
             s.push_str(&g);
+            if want_nl && o.doc_block_pct > 0 && (r.below(100) as u32) < o.doc_block_pct && !in_type && prev.text != "-" {
+                if !s.ends_with('\n') {
+                    s.push_str(nl(r, o));
+                }
+                let k = 3 + r.below(3);
+                for j in 0..k {
+                    s.push_str(&format!("-- doc line {} ~{}", j, r.below(100000)));
+                    s.push_str(nl(r, o));
+                    if r.chance(1, 4) {
+                        s.push_str(nl(r, o));
+                    }
+                }
+                hc = true;
+            }
             let key = if t.text.chars().all(|c| c.is_ascii_alphanumeric() || c == '_') && !crate::reflua::lexer::is_keyword(&t.text) { format!("{}:<word>", t.tag) } else if t.text.len() > 6 { format!("{}:<lit>", t.tag) } else { format!("{}:{}", t.tag, t.text) };
             gaps.push((key, hc));
         }
